@@ -14,6 +14,7 @@ from ml_pipeline_engine.dag.enums import EdgeField
 from ml_pipeline_engine.dag.enums import NodeField
 from ml_pipeline_engine.dag.errors import OneOfDoesNotHaveResultError
 from ml_pipeline_engine.dag.errors import RecurrentSubgraphDoesNotHaveResultError
+from ml_pipeline_engine.dag.errors import SwitchCaseLabelNotFoundError
 from ml_pipeline_engine.dag.graph import DiGraph
 from ml_pipeline_engine.dag.graph import get_connected_subgraph
 from ml_pipeline_engine.dag.storage import DAGNodeStorage
@@ -292,6 +293,11 @@ class DAGRunConcurrentManager(DAGRunManagerLike):
                 continue
 
             branch_nodes[edge.get(EdgeField.case_branch)] = pred_id
+
+        if selected_branch_label not in branch_nodes:
+            raise SwitchCaseLabelNotFoundError(
+                f'The switch node {switch_node_id} got the label {selected_branch_label!r} that matches no case',
+            )
 
         self._node_storage.set_switch_result(
             switch_node_id,
@@ -603,7 +609,11 @@ class DAGRunConcurrentManager(DAGRunManagerLike):
 
         logger.debug('Prepare Switch DAG node_id=%s', node_id)
 
-        self._add_case_result(node_id)
+        try:
+            self._add_case_result(node_id)
+        except SwitchCaseLabelNotFoundError as ex:
+            # Nobody awaits the switch task, so the run method must be woken up to see the error
+            await self.__raise_exc(ex)
 
         return await self._run_dag(
             dag=self._get_reduced_dag(
